@@ -493,7 +493,9 @@ def _remap_dummy_child(c):
         E._c18root = root
         out = impl_remap(c, E)
         after = common.new_eups()
-        out["declared"] = sorted(p.name for p in after.findProducts(version="dummy") if p.name not in c["known"])
+        # everything the call added to the stack, whatever its version
+        out["declared"] = sorted([p.name, p.version] for p in after.findProducts()
+                                 if not (p.version == "dummy" and p.name in c["known"]))
         return out
     finally:
         common.rmtree(root)
@@ -723,7 +725,7 @@ def oracle_dummy(c, io_):
         # (Eups.declare refuses names outside [a-zA-Z_0-9]; remapEntries prints the exception and goes on)
         if kind == "new" and e[1] == "dummy" and e[0] not in c["known"] and re.match(r"^[a-zA-Z_0-9]*$", e[0]):
             exp.add(e[0])
-    if sorted(exp) != io_["declared"]:
+    if sorted([n, "dummy"] for n in exp) != io_["declared"]:
         yield ("remap_declares_exactly_the_missing_dummy_products", None,
                "expected %r declared at version dummy, found %r (already declared: %r)" % (sorted(exp), io_["declared"], c["known"]))
 
@@ -853,7 +855,8 @@ def model_output(c, io_, answers):
         return {"answers": answers[0]["answers"]}
     a = answers[0]
     if "declared" in a:
-        a = dict(a, declared=sorted(a["declared"]))      # the stack is listed by name afterwards, not in declaration order
+        # the stack is listed by name afterwards, not in declaration order
+        a = dict(a, declared=sorted([n, "dummy"] for n in a["declared"]))
     return a if "error" not in a else {"error": a["error"]}
 
 
